@@ -71,7 +71,8 @@ PROOFS += [
     Proof('linear/fixed_pio', 'xfile.c', 'h_fixed_pio', kind='L', min_obligations=20, timeout=900, backend='cadical'),
     Proof('linear/variable_pio', 'xfile.c', 'h_var_pio', kind='L', min_obligations=20, timeout=900, backend='cadical'),
 ]
-NATIVES = []
+NATIVES = [Native('native', 'native.cpp', args_quick=[20000], args_thorough=[2000000], timeout=3000, link_photon=True, cxxflags=['-fpermissive'])]
+REPLAY = 'native'
 AUX_VIOLATION = True    # no native oracle: a failing loop-rule obligation is reported (no-failing-input-found), see DESIGN §4
 TRUSTED = ['cbmc 6.11.0', 'lowering rules of specs/C16/spec.py and specs/C15/spec.py']
 NOT_DECIDED = []
